@@ -140,11 +140,11 @@ def run(run):
         cases = K.standard_cases(hand, ["range"], [("np", 3, True), ("np", 5, False)]) + K.standard_cases(hand, ["dupint"], [("np", 4, True)])
         cases += K.standard_cases(d1 + d2 + preds, ["range"], [("np", 3, True)])
         # a skewed layout (one-row first partition, an empty partition): rules that look at "the first k partitions"
-        cases += K.standard_cases(hand + d1, ["range"], [("cuts", (1, 0, 3, 8), True)])
+        cases += K.standard_cases(hand + d1, ["range"], [("cuts", ((1, 0, 3, 8), (0, 3, 4)), True)])
     else:
         lays = [("np", 1, True), ("np", 2, True), ("np", 3, True), ("np", 5, True), ("np", 7, False), ("np", 3, False)]
         cases = K.standard_cases(hand, ["range", "dupint", "float", "str", "dt"], lays)
-        cases += K.standard_cases(hand, ["range"], [("cuts", (3, 0, 4, 5), False), ("cuts", (1, 1, 1, 9), True)])
+        cases += K.standard_cases(hand, ["range"], [("cuts", ((3, 0, 4, 5), (2, 5)), False), ("cuts", ((1, 1, 1, 9), (1, 0, 6)), True)])
         cases += K.standard_cases(d1 + d2 + preds, ["range"], [("np", 3, True), ("np", 5, False)])
         cases += K.standard_cases(d1, ["dupint", "str"], [("np", 4, True)])
     run_cases(run, "vf.props.C01", "check_case", cases, {"rules": True})
